@@ -1511,11 +1511,8 @@ R.mutant("benign-compound-select-local-before-collect", CMP, sub(
 R.mutant("benign-visit-params-renamed-local", "sql/cache_key.py", sub(
     "                to_set = anon_map[CacheConst.PARAMS] | obj\n            else:\n                to_set = obj\n            anon_map[CacheConst.PARAMS] = to_set\n",
     "                merged_params = anon_map[CacheConst.PARAMS] | obj\n            else:\n                merged_params = obj\n            anon_map[CacheConst.PARAMS] = merged_params\n"), None)
-# the repair of this round's finding (FromStatement collects its own `_params` on the uncached path) must be silent
-R.mutant("benign-fix-fromstatement-collects-params", "orm/context.py", sub(
-    '        """\n\n        compile_state = self._compile_state_factory(self, compiler, **kw)\n\n        toplevel = not compiler.stack\n',
-    '        """\n\n        if compiler._collect_params:\n            compiler._add_to_params(self)\n\n'
-    '        compile_state = self._compile_state_factory(self, compiler, **kw)\n\n        toplevel = not compiler.stack\n'), None)
+# (the benign mutant that applied the FromStatement repair was removed: the repair is part of the tree now, see
+# `fromstatement-stops-collecting-params` below for its inverse)
 
 # ---- robustification round (rob-C2): C02-R2 / C02-R4 read the functions through reaching definitions and
 # same-module helpers instead of local names; breaking mutants for the aspects that had none, and the benign
